@@ -66,6 +66,7 @@ func mutateTok(v string, n int) string {
 func c09http(c *run.Ctx) {
 	c09LeanSession(c)
 	c09ReservedExtras(c)
+	c09TwoIntrospectors(c)
 	c09IntegratorStrategy(c)
 	n := c.N(48, 4000)
 	c.Need("http_active_true", 1)
@@ -427,6 +428,48 @@ func c09LeanSession(c *run.Ctx) {
 					hydrate, gotSub, gotUser, gotTenant, p.sub, p.user, p.tenant, out.Body)})
 			}
 		}
+	}
+}
+
+// c09TwoIntrospectors: JWT access tokens with fosite's stateless JWT validator registered in front of the storage-backed
+// introspection handler. Every registered handler has a say: what the first one accepts on the signature alone, the second
+// one still refuses once the token was revoked, rotated away or has expired.
+func c09TwoIntrospectors(c *run.Ctx) {
+	if !c.Mine(7) && c.NShards > 7 {
+		return
+	}
+	w := world.New(world.Opts{JWTAccess: true, StatelessIntrospectionFirst: true})
+	a := world.Basic("conf-a", "secret-of-a")
+	judge := func(what, tok string, want bool) {
+		got := w.IntrospectAPI(tok, fosite.AccessToken).Active
+		out := w.IntrospectHTTP(url.Values{"token": {tok}}, world.Basic("conf-b", "secret-of-b"), "")
+		http, _ := out.JSON["active"].(bool)
+		c.Case(fmt.Sprintf("two-introspectors %s want-active=%v api=%v http=%v", what, want, got, http))
+		c.Count("c09_two_introspector_probes", 1)
+		if got != want || http != want {
+			kind, key := "http-active-but-dead", "http-active-but-dead two-introspectors "+what
+			if want {
+				kind, key = "http-inactive-but-live", "http-inactive-but-live two-introspectors "+what
+			}
+			c.Violate(run.Violation{Kind: kind, Key: key, Detail: fmt.Sprintf("stateless JWT validator registered before the storage-backed one: %s, expected active=%v, API says %v, endpoint says %s", what, want, got, out.Body)})
+		}
+	}
+	cc := w.Token(url.Values{"grant_type": {"client_credentials"}, "scope": {"fosite"}}, a)
+	pw := w.Token(url.Values{"grant_type": {"password"}, "username": {world.UserName}, "password": {world.UserPass}, "scope": {"offline fosite"}}, a)
+	if cc.Err != nil || pw.Err != nil {
+		c.Inconcl("two-introspectors world could not issue tokens: " + world.ErrDetail(cc.Err) + world.ErrDetail(pw.Err))
+		return
+	}
+	judge("fresh client_credentials token", cc.S("access_token"), true)
+	judge("fresh password-grant token", pw.S("access_token"), true)
+	w.Revoke(url.Values{"token": {cc.S("access_token")}}, a)
+	judge("revoked token", cc.S("access_token"), false)
+	rf := w.Token(url.Values{"grant_type": {"refresh_token"}, "refresh_token": {pw.S("refresh_token")}}, a)
+	judge("token rotated away by a refresh", pw.S("access_token"), false)
+	if rf.Err == nil {
+		judge("token minted by the refresh", rf.S("access_token"), true)
+		world.Sleep(2 * time.Hour)
+		judge("expired token", rf.S("access_token"), false)
 	}
 }
 
